@@ -287,6 +287,11 @@ fn grammar_of_src(src: &str) -> (String, String, Option<OpTable>, Option<String>
             let g = op_grammar(f[1], &t);
             ("op".into(), serde_json::to_string(&g).unwrap(), Some(t), None)
         }
+        "opn" => {
+            let t = OpTable::decode(f[2]);
+            let g = op_grammar_named(f[1], &t);
+            ("op".into(), serde_json::to_string(&g).unwrap(), Some(t), None)
+        }
         "glr" => {
             let g = glr_grammars().into_iter().find(|(n, _)| n == f[1]).expect("glr grammar").1;
             ("glr".into(), serde_json::to_string(&g).unwrap(), None, None)
@@ -470,6 +475,24 @@ fn main() {
         let g = op_grammar(&name, &t);
         let json = serde_json::to_string(&g).unwrap();
         explore_token_grammar(&mut em, &mut cu, &mut rng, &name, "op", &format!("op:{name}:{}", t.encode()), &json, Some(&t), budget.min(15000), nrandom, &mut stats);
+    }
+    // operator tables written with NAMED precedence levels (ordered by the grammar's `precedences` list)
+    for k in 0..(if thorough { 48 } else { 16 }) {
+        let mut grng = Rng::new(seed ^ 0x9A3D ^ (k as u64).wrapping_mul(0x9E37));
+        let mut t = random_optable(&mut grng);
+        for u in t.un.iter_mut().chain(t.post.iter_mut()) {
+            u.3 = true;
+        }
+        if k % 3 == 1 {
+            add_twin(&mut t, k, &mut grng);
+        }
+        if k % 3 == 2 {
+            group_rules(&mut t, k % 2 == 0, &mut grng);
+        }
+        let name = format!("c03np{k}");
+        let g = op_grammar_named(&name, &t);
+        let json = serde_json::to_string(&g).unwrap();
+        explore_token_grammar(&mut em, &mut cu, &mut rng, &name, "op", &format!("opn:{name}:{}", t.encode()), &json, Some(&t), budget.min(15000), nrandom, &mut stats);
     }
     // wide operator sets next to external tokens (a reduce shared by ≥ 10 look-aheads incl. externals)
     for k in 0..(if thorough { 24 } else { 6 }) {
